@@ -1049,6 +1049,19 @@ func (s *Translator) translateTraversalPatternPartWithoutExpansion(part *Pattern
 		} else {
 			traversalStep.RightNodeJoinCondition = rightNodeJoinCondition
 		}
+
+		if traversalStep.Direction == graph.DirectionBoth && traversalStep.LeftNode.Identifier == traversalStep.RightNode.Identifier {
+			// (n)-[r]-(n): both join conditions only say that n is one of the edge's endpoints, which every edge
+			// incident to n satisfies. The node must be both endpoints: only self loops match.
+			traversalStep.EdgeConstraints.Expression = pgsql.OptionalAnd(
+				traversalStep.EdgeConstraints.Expression,
+				pgsql.NewBinaryExpression(
+					pgsql.CompoundIdentifier{traversalStep.Edge.Identifier, pgsql.ColumnStartID},
+					pgsql.OperatorEquals,
+					pgsql.CompoundIdentifier{traversalStep.Edge.Identifier, pgsql.ColumnEndID},
+				),
+			)
+		}
 	}
 
 	if allowProjectionPruning {
